@@ -390,7 +390,7 @@ func (w *worker) runC05(c *Case, pw, dw string) error {
 	}
 	qs := []query{{"spec", "any.map", "-"}}
 	for _, r := range reps {
-		qs = append(qs, query{"get", r.String(), "P"}, query{"gets", r.String(), "P"})
+		qs = append(qs, query{"get", r.String(), pinnedFlags}, query{"gets", r.String(), pinnedFlags})
 	}
 	ans, err := w.ask(c, pw, dw, qs)
 	if err != nil {
@@ -425,7 +425,7 @@ func (w *worker) runC05(c *Case, pw, dw string) error {
 		tie := same(g.vals, model, ord)
 		if !tie && !ord && c.p.descentAfterFrag() {
 			// which of several containers is descended into (descentSiblings) depends on Go's map order
-			if id, err := w.unorderedSiblings(c, pw, dw, query{"get", r.String(), "P"}, g.vals); err != nil {
+			if id, err := w.unorderedSiblings(c, pw, dw, query{"get", r.String(), pinnedFlags}, g.vals); err != nil {
 				return err
 			} else if id != "" {
 				knownFinding(id, "get-denotation:"+r.String()+":flags=s:map-order", "Get does not return what the path denotes (descent after a fragment, map order decides)", c, desc)
@@ -467,12 +467,33 @@ func (w *worker) runC05(c *Case, pw, dw string) error {
 	return nil
 }
 
-// allFlags are the deviation flags of the model (Cfg); "P" is all of them.
+// allFlags are the deviation flags of the model (Cfg); "P" is the pinned configuration (all of them
+// until a proposed fix is applied and Cfg.pinned is updated). VERIF_FIXED=<letters> runs the check with
+// those flags off (to try the harness against a tree patched with a proposed fix).
 const allFlags = "esncowurlzmtfghda"
 
-func without(f byte) string {
-	s := strings.ReplaceAll(allFlags, string(f), "")
+var pinnedFlags = func() string {
+	off := os.Getenv("VERIF_FIXED")
+	if off == "" {
+		return "P"
+	}
+	s := allFlags
+	for i := 0; i < len(off); i++ {
+		s = strings.ReplaceAll(s, string(off[i]), "")
+	}
 	if s == "" {
+		return "-"
+	}
+	return s
+}()
+
+func without(f byte) string {
+	s := allFlags
+	if pinnedFlags != "P" {
+		s = pinnedFlags
+	}
+	s = strings.ReplaceAll(s, string(f), "")
+	if s == "" || s == "-" {
 		return "-"
 	}
 	return s
@@ -509,7 +530,7 @@ func (w *worker) explainC05(c *Case, pw, dw string, r Rep, specVals []string, or
 		}
 		return splitVals(a)
 	}
-	ans, err := w.ask(c, pw, dw, []query{{op, r.String(), "-"}, {op, r.String(), "P"}, {op, r.String(), without('e')}, {op, r.String(), without('s')}})
+	ans, err := w.ask(c, pw, dw, []query{{op, r.String(), "-"}, {op, r.String(), pinnedFlags}, {op, r.String(), without('e')}, {op, r.String(), without('s')}})
 	if err != nil {
 		return "", "", err
 	}
@@ -557,7 +578,7 @@ func (w *worker) explainC05(c *Case, pw, dw string, r Rep, specVals []string, or
 // members that the path iterates, and what Go returned is part of what the model returns without the flag
 // (the model with the flag, in its own member order, may or may not show the loss).
 func (w *worker) unorderedSiblings(c *Case, pw, dw string, q query, got []string) (string, error) {
-	ans, err := w.ask(c, pw, dw, []query{{q.op, q.rep, "P"}, {q.op, q.rep, without('s')}})
+	ans, err := w.ask(c, pw, dw, []query{{q.op, q.rep, pinnedFlags}, {q.op, q.rep, without('s')}})
 	if err != nil {
 		return "", err
 	}
@@ -770,7 +791,7 @@ func (w *worker) runC11(c *Case, pw, dw string) error {
 				mop = "gets"
 			}
 			runs = append(runs, runT{ev, r, o, ord})
-			qs = append(qs, query{mop, r.String(), "P"})
+			qs = append(qs, query{mop, r.String(), pinnedFlags})
 			rep.Count("runs."+ev+"."+r.String(), 1)
 		}
 	}
@@ -868,7 +889,7 @@ func unmodelled(ev string, r Rep, p Path) string {
 // deviations: with every deviation flag off the model of the evaluator agrees with the model of Get
 // (that is the theorem), and the flags whose removal changes either answer name the deviation.
 func (w *worker) explainC11(c *Case, pw, dw string, q query, ordered bool) (string, string, error) {
-	qs := []query{{q.op, q.rep, "-"}, {"get", "any.map", "-"}, {q.op, q.rep, "P"}, {"get", "any.map", "P"}}
+	qs := []query{{q.op, q.rep, "-"}, {"get", "any.map", "-"}, {q.op, q.rep, pinnedFlags}, {"get", "any.map", pinnedFlags}}
 	for i := 0; i < len(allFlags); i++ {
 		f := string(allFlags[i])
 		qs = append(qs, query{q.op, q.rep, without(allFlags[i])}, query{"get", "any.map", without(allFlags[i])},
